@@ -374,3 +374,54 @@ Example decoders_differ_on_a_missing_path :
                  (B.tr_chain (fun _ => None) 0%N ppl) [r1])
     = [(1, [("app", "x")]%string, "{""a"":""b""}"%string)].
 Proof. cbv zeta. split; reflexivity. Qed.
+
+(* ============================================================================================================== *)
+(* results as a whole, series order unspecified (Go iterates maps in any order)                                      *)
+From Qryn Require proofs.InternalEngineAggProofs.
+Section C09_WHOLE.
+  Variable V : Type.
+  Variables (v0 v1 : V) (vadd vdiv : V -> V -> V) (vltb vleb veqb : V -> V -> bool) (vofZ : Z -> V).
+  Variable panic_kills : bool.
+  Variable fpf : lbls -> N.
+  Variable re_match : string -> string -> bool.
+  Variable pfloat : string -> option V.
+  Variable parse : N -> string -> option lbls.
+  Variable tmpl : N -> lbls -> option string.
+  Notation run_stage := (run_stage V v0 v1 vadd vdiv vltb vleb veqb vofZ panic_kills fpf re_match pfloat parse tmpl).
+  Notation run_chain := (run_chain V v0 v1 vadd vdiv vltb vleb veqb vofZ panic_kills fpf re_match pfloat parse tmpl).
+  Notation sem_chain := (sem_chain V v0 v1 vadd vdiv vltb vleb veqb vofZ fpf re_match pfloat parse tmpl).
+
+  (* the response optimizer sends a permutation of what it received: nothing lost, nothing duplicated, for every batching
+     and any number of 3000-entry flushes (with batching_invariant_optimizer: the order inside every series is kept)   *)
+  Theorem optimizer_sends_a_permutation : forall c bs,
+    Permutation (List.concat (run_stage c (SOptimizer V) bs)) (List.concat bs).
+  Proof. exact (InternalEngineAggProofs.optimizer_permutation V v0 v1 vadd vdiv vltb vleb veqb vofZ panic_kills fpf re_match pfloat parse tmpl). Qed.
+
+  (* a log request as a whole -- any chain of per-entry stages with the limit stage anywhere in it, then the response
+     optimizer, exactly what internal_planner.Plan builds -- returns a permutation of what the reference semantics defines
+     (every limit value, every batching, flushes included), and inside every series the order of the chain's output     *)
+  Theorem log_request_whole_result : forall c ch rows t bs,
+    forallb (simple_stage V) ch = true ->
+    Forall (data_row V) rows -> Forall (terminator V) t -> List.concat bs = (rows ++ t)%list ->
+    Permutation (map (erase V) (data_of V (List.concat (run_chain c (ch ++ [SOptimizer V])%list bs))))
+                (map (erase V) (sem_chain c ch (List.concat bs))) /\
+    forall f, proj V f (data_of V (List.concat (run_chain c (ch ++ [SOptimizer V])%list bs))) =
+              proj V f (data_of V (List.concat (run_chain c ch bs))).
+  Proof. exact (InternalEngineAggProofs.log_chain_whole V v0 v1 vadd vdiv vltb vleb veqb vofZ panic_kills fpf re_match pfloat parse tmpl). Qed.
+End C09_WHOLE.
+Print Assumptions optimizer_sends_a_permutation.
+Print Assumptions log_request_whole_result.
+
+(* hypotheses met: a parser, a label_format, the limit (2 of 3 rows) and the optimizer over three rows of two series *)
+Example log_request_hypotheses_met :
+  let mk := fun ts fp m msg => {| e_ts := ts; e_fp := fp; e_lbl := Some m; e_msg := msg; e_val := 0; e_err := ENone |} in
+  let rows := [mk 1 7%N [("app", "x")] "a=1"; mk 2 8%N [("app", "y")] "a=2"; mk 3 7%N [("app", "x")] "a=3"] in
+  let eof := {| e_ts := 0; e_fp := 0%N; e_lbl := None; e_msg := EmptyString; e_val := 0; e_err := EEof |} in
+  let ch := [SParser Z 0%N; SLabelFormat Z [LFConst "k" "v"]; SLimit Z] in
+  Forall (data_row Z) rows /\ Forall (terminator Z) [eof] /\ forallb (simple_stage Z) ch = true /\
+  List.length (data_of Z (List.concat (run_chain Z 0 1 Z.add Z.div Z.ltb Z.leb Z.eqb (fun z => z) false (fun m => N.of_nat (List.length m)) (fun _ _ => false)
+                                     (fun _ => None) (fun _ _ => None) (fun _ _ => None) {| c_from := 0; c_to := 10; c_limit := 2 |}
+                                     (ch ++ [SOptimizer Z])%list [[mk 1 7%N [("app", "x")] "a=1"]; [mk 2 8%N [("app", "y")] "a=2"; mk 3 7%N [("app", "x")] "a=3"; eof]]))) = 2%nat.
+Proof.
+  cbv zeta. split; [repeat constructor; eexists; reflexivity|]. split; [repeat constructor; discriminate|]. split; reflexivity.
+Qed.
